@@ -16,6 +16,13 @@ def rat(j):
 class Solution:
     def __init__(self, text):
         self.timelines = []
+        self.graph = None
+        if " \tJG " in text:
+            text, jg = text.split(" \tJG ", 1)
+            try:
+                self.graph = json.loads(jg)
+            except ValueError:
+                self.graph = None
         if " \tTL " in text:
             text, tl = text.split(" \tTL ", 1)
             try:
@@ -214,3 +221,136 @@ def check_rr(sol, capacities):
                     if "usage" in seg and rat(seg["usage"]) != exp:
                         bad.append(f"timeline of resource {tl['id']}: segment [{f},{t}) reports usage {rat(seg['usage'])} but the covering atoms sum to {exp}")
     return bad
+
+
+# ---------------------------------------------------------------- causal structure (C03)
+
+def check_plan(sol, meta=None):
+    """C03 on the final state: every flaw in the plan is resolved, resolvers' preconditions are in the plan, every atom
+    in the plan is active (goal: rule applied, sub-goals in the plan) or unified with an equal active atom, and the
+    support relation (goal -> its sub-goals, unified atom -> its target) is acyclic"""
+    bad = []
+    g = sol.graph
+    if g is None:
+        return ["the justification graph is missing or not valid JSON"]
+    flaws = {f["id"]: f for f in g}
+    atoms = {a["id"]: a for a in sol.atoms}
+    res_owner = {}
+    for f in g:
+        for r in f["resolvers"]:
+            res_owner[r["id"]] = f
+    aflaw = {}
+    for f in g:
+        if f["data"].get("type") in ("fact", "goal"):
+            aflaw[f["data"]["atom"]] = f
+    for f in g:
+        act = [r for r in f["resolvers"] if r["rho"] == "T"]
+        if f["phi"] == "T":
+            if not f["expanded"]:
+                bad.append(f"flaw {f['data']} is in the plan but was never expanded")
+            elif not act:
+                bad.append(f"flaw {f['data']} is in the plan but none of its {len(f['resolvers'])} resolvers is applied")
+        for r in act:
+            for p in r["preconditions"]:
+                if p in flaws and flaws[p]["phi"] != "T":
+                    bad.append(f"resolver {r['data']} is applied but its precondition {flaws[p]['data']} is not in the plan")
+    support = {}     # atom id -> atoms it depends on
+
+    def children(res):
+        out = []
+        todo = list(res["preconditions"])
+        seen = set()
+        while todo:
+            p = todo.pop()
+            if p in seen or p not in flaws:
+                continue
+            seen.add(p)
+            f = flaws[p]
+            if f["data"].get("type") in ("fact", "goal"):
+                out.append(f["data"]["atom"])
+            else:
+                for r in f["resolvers"]:
+                    if r["rho"] == "T":
+                        todo += r["preconditions"]
+        return out
+    for aid, a in atoms.items():
+        f = aflaw.get(aid)
+        if f is None:
+            bad.append(f"atom {a['predicate']} of the solution has no flaw")
+            continue
+        pars = atom_pars(a)
+        acts = [r for r in f["resolvers"] if r["data"].get("type") == "activate"]
+        unis = [r for r in f["resolvers"] if r["data"].get("type") == "unify" and r["rho"] == "T"]
+        if a["state"] == "Active":
+            if unis:
+                bad.append(f"atom {a['predicate']} is active although a unification of it is applied")
+            if f["data"]["type"] == "goal":
+                if not any(r["rho"] == "T" for r in acts):
+                    bad.append(f"goal {a['predicate']}{fmt_pars(pars)} is active but its rule was not applied (activate resolver not in the plan)")
+                else:
+                    r = next(r for r in acts if r["rho"] == "T")
+                    ch = children(r)
+                    support[aid] = ch
+                    for c in ch:
+                        if c in atoms and atoms[c]["state"] not in ("Active", "Unified"):
+                            bad.append(f"sub-goal {atoms[c]['predicate']} of active goal {a['predicate']}{fmt_pars(pars)} is neither active nor unified")
+                    if meta is not None and meta.get("kind") == "plan":
+                        from . import plgen
+                        pi = int(a["predicate"][1:])
+                        x = pars["x"][1]
+                        got = tuple(sorted((int(atoms[c]["predicate"][1:]), atom_pars(atoms[c])["x"][1]) for c in ch if c in atoms))
+                        exp = plgen.expected(meta["rules"][pi], x)
+                        if got not in exp:
+                            bad.append(f"active goal {a['predicate']}(x={x}): the sub-goals in the plan {list(got)} are not what its rule requires {sorted(exp)}")
+        elif a["state"] == "Unified":
+            if len(unis) != 1:
+                bad.append(f"atom {a['predicate']}{fmt_pars(pars)} is unified but {len(unis)} unifications are applied")
+            for r in unis:
+                t = int(r["data"]["target"])
+                support.setdefault(aid, []).append(t)
+                ta = atoms.get(t)
+                if ta is None or ta["state"] != "Active":
+                    bad.append(f"atom {a['predicate']}{fmt_pars(pars)} is unified with an atom that is not active")
+                elif ta["predicate"] != a["predicate"]:
+                    bad.append(f"atom {a['predicate']} is unified with an atom of predicate {ta['predicate']}")
+                else:
+                    tp = atom_pars(ta)
+                    for k_, v in pars.items():
+                        if k_ in tp and not same_value(v, tp[k_]):
+                            bad.append(f"atom {a['predicate']}{fmt_pars(pars)} is unified with {ta['predicate']}{fmt_pars(tp)}: argument {k_} differs")
+        elif f["phi"] == "T":
+            bad.append(f"atom {a['predicate']}{fmt_pars(pars)} belongs to the plan (its flaw is active) but is neither active nor unified")
+    # acyclicity of the support relation
+    color = {}
+
+    def dfs(u, path):
+        color[u] = 1
+        for v in support.get(u, []):
+            if color.get(v) == 1:
+                bad.append("causal support is cyclic: " + " -> ".join(atoms[w]["predicate"] + fmt_pars(atom_pars(atoms[w])) for w in path + [u, v] if w in atoms))
+                return
+            if v not in color:
+                dfs(v, path + [u])
+        color[u] = 2
+    for u in list(support):
+        if u not in color:
+            dfs(u, [])
+    return bad
+
+
+def same_value(a, b):
+    if a[0] == "num" and b[0] == "num":
+        return a[1:] == b[1:]
+    if a[0] == "enum" or b[0] == "enum":
+        va = set(a[1]) if a[0] == "enum" else {a[1]}
+        vb = set(b[1]) if b[0] == "enum" else {b[1]}
+        return va == vb
+    return a == b
+
+
+def fmt_pars(p):
+    def one(v):
+        if v[0] == "num":
+            return str(T((v[1], v[2])))
+        return str(v[1])
+    return "(" + ", ".join(f"{k}={one(v)}" for k, v in sorted(p.items())) + ")"
